@@ -729,3 +729,80 @@ Corollary member_chain_taken_whole segs r n : segs <> [] -> Forall is_ident segs
 Proof.
   intros. rewrite (proj1 expr_complete n _ r (member_chain_complete segs r n H H0 H1 H2 H3)). now rewrite slice_app.
 Qed.
+
+(* ---- string literals with escapes ---- *)
+Definition escapable : bytes := b "'""\nrt0xu".
+(* the body of a literal: maximal runs of ordinary bytes and backslash pairs whose second byte is an
+   apostrophe, a double quote, a backslash, or one of n r t 0 x u *)
+Inductive sbody : bytes -> Prop :=
+| sb_nil : sbody []
+| sb_run run rest : run <> [] -> Forall (fun c => plain_str c = true) run -> (rest = [] \/ exists t, rest = 92%N :: t) -> sbody rest -> sbody (run ++ rest)
+| sb_esc c rest : mem c escapable = true -> sbody rest -> sbody (92%N :: c :: rest).
+
+Lemma span_plain_run run rest : Forall (fun c => plain_str c = true) run -> (rest = [] \/ exists x t, rest = x :: t /\ plain_str x = false) ->
+  span plain_str (run ++ rest) = (run, rest).
+Proof.
+  intros Hr Hs. rewrite (span_app_stop plain_str run rest Hs).
+  assert (S0 : span plain_str run = (run, [])).
+  { clear -Hr. induction Hr as [|x l Hx Hl IH]; [reflexivity|]. cbn [span]. rewrite Hx, IH. reflexivity. }
+  rewrite S0. reflexivity.
+Qed.
+
+Lemma escaped_body : forall body, sbody body -> forall n pre r, List.length (body ++ 34%N :: r) <= n -> (pre <> [] \/ body <> []) ->
+  escaped_aux (is_not [34%N; 92%N]) 92 (one_of escapable) n (pre ++ body ++ 34%N :: r) (body ++ 34%N :: r) = Ok (pre ++ body) (34%N :: r).
+Proof.
+  assert (Stop : forall n pre r, pre <> [] ->
+            escaped_aux (is_not [34%N; 92%N]) 92 (one_of escapable) (S n) (pre ++ 34%N :: r) (34%N :: r) = Ok pre (34%N :: r)).
+  { intros n pre r Hp. cbn [escaped_aux]. unfold is_not, take_while1. fold plain_str. cbn [span]. assert (P34 : plain_str 34 = false) by reflexivity. rewrite P34.
+    cbn [err1]. change (N.eqb 34 92) with false. cbv iota.
+    assert (X : Nat.eqb (List.length (34%N :: r)) (List.length (pre ++ 34%N :: r)) = false).
+    { apply Nat.eqb_neq. rewrite app_length. destruct pre; [congruence|cbn [List.length]; lia]. }
+    rewrite X. f_equal. rewrite app_length.
+    replace (List.length pre + List.length (34%N :: r) - List.length (34%N :: r)) with (List.length pre) by lia.
+    rewrite firstn_app, firstn_all, Nat.sub_diag. cbn [firstn]. now rewrite app_nil_r. }
+  induction 1 as [|run rest Hne Hrun Hrest _ IH|c rest Hc _ IH]; intros n pre r Ln Hp.
+  - cbn [app] in *. destruct n as [|n]; [cbn [List.length] in Ln; lia|]. rewrite app_nil_r. apply Stop. destruct Hp as [Hp|Hp]; congruence.
+  - destruct n as [|n]; [rewrite !app_length in Ln; destruct run; [congruence|cbn [List.length] in Ln; lia]|].
+    destruct run as [|x run]; [congruence|]. rewrite <- !app_assoc. cbn [app].
+    assert (N1 : is_not [34%N; 92%N] (x :: run ++ rest ++ 34%N :: r) = Ok (x :: run) (rest ++ 34%N :: r)).
+    { unfold is_not, take_while1. fold plain_str. change (x :: run ++ rest ++ 34%N :: r) with ((x :: run) ++ rest ++ 34%N :: r).
+      rewrite span_plain_run; [reflexivity|exact Hrun|]. right. destruct Hrest as [->|[t ->]]; [exists 34%N, r|exists 92%N, (t ++ 34%N :: r)]; split; reflexivity. }
+    cbn [escaped_aux]. rewrite N1.
+    assert (Nz : exists y t, rest ++ 34%N :: r = y :: t) by (destruct rest; eexists; eexists; reflexivity).
+    destruct Nz as [y [t Ey]]. rewrite Ey.
+    assert (X : Nat.eqb (List.length (y :: t)) (List.length (x :: run ++ y :: t)) = false).
+    { apply Nat.eqb_neq. cbn [List.length]. rewrite app_length. cbn [List.length]. lia. }
+    rewrite X. rewrite <- Ey.
+    replace (pre ++ x :: run ++ rest ++ 34%N :: r) with ((pre ++ x :: run) ++ rest ++ 34%N :: r) by (rewrite <- app_assoc; reflexivity).
+    rewrite (IH n (pre ++ x :: run) r); [now rewrite <- !app_assoc| |left; destruct pre; discriminate].
+    cbn [List.length] in Ln. rewrite !app_length in *. cbn [List.length] in *. lia.
+  - destruct n as [|n]; [cbn [List.length app] in Ln; lia|]. cbn [app].
+    assert (N1 : exists e, is_not [34%N; 92%N] (92%N :: c :: rest ++ 34%N :: r) = Err e) by (eexists; reflexivity).
+    destruct N1 as [e N1]. cbn [escaped_aux]. rewrite N1. rewrite N.eqb_refl.
+    assert (O1 : one_of escapable (c :: rest ++ 34%N :: r) = Ok c (rest ++ 34%N :: r)) by (unfold one_of; now rewrite Hc).
+    rewrite O1.
+    assert (Nz : exists y t, rest ++ 34%N :: r = y :: t) by (destruct rest; eexists; eexists; reflexivity).
+    destruct Nz as [y [t Ey]]. rewrite Ey. rewrite <- Ey.
+    destruct n as [|n]; [cbn [List.length app] in Ln; rewrite app_length in Ln; cbn [List.length] in Ln; lia|].
+    replace (pre ++ 92%N :: c :: rest ++ 34%N :: r) with ((pre ++ [92%N; c]) ++ rest ++ 34%N :: r) by (rewrite <- app_assoc; reflexivity).
+    rewrite (IH (S n) (pre ++ [92%N; c]) r); [rewrite <- app_assoc; reflexivity| |left; destruct pre; discriminate].
+    cbn [List.length app] in Ln. lia.
+Qed.
+
+Theorem quoted_string_escapes body rest : sbody body -> utf8_valid (34%N :: body ++ [34%N]) = true ->
+  quoted_string (34%N :: body ++ 34%N :: rest) = Ok (34%N :: body ++ [34%N]) rest.
+Proof.
+  intros Hb V. unfold quoted_string. apply map_res_to_str_ok; [|exact V].
+  assert (R : exists o, delimited (char 34) (opt (escaped (is_not [34%N; 92%N]) 92 (one_of (b "'""\nrt0xu")))) (char 34) (34%N :: body ++ 34%N :: rest) = Ok o rest).
+  { destruct body as [|c body].
+    - exists None. eapply delimited_ok; [apply char_ok| |apply char_ok].
+      cbn [app]. unfold opt, escaped. cbn [List.length escaped_aux]. unfold is_not, take_while1. cbn [span mem negb]. change (N.eqb 34 34) with true. cbn [orb negb].
+      change (N.eqb 34 92) with false. cbv iota. rewrite Nat.eqb_refl. reflexivity.
+    - exists (Some (c :: body)). eapply delimited_ok; [apply char_ok| |apply char_ok].
+      apply opt_ok. unfold escaped. fold escapable.
+      pose proof (escaped_body (c :: body) Hb (List.length ((c :: body) ++ 34%N :: rest)) [] rest (le_n _) ltac:(right; discriminate)) as Eb.
+      cbn [app] in Eb. exact Eb. }
+  destruct R as [o R]. rewrite (recognize_ok _ _ _ _ R). f_equal.
+  replace (34%N :: body ++ 34%N :: rest) with ((34%N :: body ++ [34%N]) ++ rest) by (cbn [app]; now rewrite <- app_assoc).
+  apply slice_app.
+Qed.
